@@ -17,7 +17,7 @@ RULE = ("case = two inverter objects (variants ET eco-v1 / eco-v2 / 745 platform
 ASSUMPTIONS = [
     "a fresh import of the goodwe package (sys.modules purged) is an uncontaminated baseline",
     "results are compared through a structural snapshot (str() and the public attributes of group objects, repr of plain values)",
-    "simulated inverters (vlib/siminv.py), direct path",
+    "simulated inverters (vlib/siminv.py); call-level interleavings on the direct path, truly overlapping requests end-to-end on the virtual loop",
 ]
 
 VARIANTS = {
@@ -240,7 +240,111 @@ def _first_step(s, b):
     return None
 
 
+# ---------------------------------------------------------------------------------------------
+# end-to-end variant: the two objects are used by two concurrent tasks on one event loop (requests truly overlap)
+# ---------------------------------------------------------------------------------------------
+def execute_e2e(case, which):
+    import asyncio
+    from vlib.vloop import MultiPeer, ScriptedPeer, VLoop, World
+    harness.import_goodwe(fresh=True)
+    hosts = {"A": "192.0.2.1", "B": "192.0.2.2"}
+    objs, peers = {}, {}
+    for name in which:
+        spec = case["objects"][name]
+        cfg = dict(VARIANTS[spec["variant"]])
+        salt = spec["salt"]
+        inv = siminv.make_inverter(cfg["family"], cfg.get("tcp", False), T=1.0, R=1, host=hosts[name])
+        _, sim = siminv.build_direct(dict(cfg), default=lambda a, s=salt: (a * 31 + s * 17 + 3) & 0x7FFF)
+        if cfg["family"] == "ES":
+            sim.regs = _Regs(lambda a, s=salt: (a * 29 + s) & 0x7FFF)
+        peers[hosts[name]] = ScriptedPeer(siminv.responder_for(inv, sim), [], default=("answer", spec.get("latency", 1) / 16.0))
+        objs[name] = {"inv": inv, "sim": sim, "results": [], "tcp": cfg.get("tcp", False)}
+    world = World(MultiPeer(peers))
+    loop = VLoop(world, max_time=1e5)
+
+    async def runner(name):
+        o = objs[name]
+        await asyncio.sleep(case["objects"][name].get("start", 0) / 16.0)
+        for op in case["seq"][name]:
+            try:
+                val = await op_call(o["inv"], op)
+                o["results"].append(("ok", snap(val)))
+            except Exception as ex:
+                o["results"].append(("exc", type(ex).__name__ + ":" + str(ex)[:80]))
+
+    async def main():
+        for name in which:
+            await objs[name]["inv"].read_device_info()
+        await asyncio.gather(*[runner(n) for n in which])
+
+    out = loop.run(main())
+    loop.idle()
+    loop.shutdown()
+    res = {}
+    for name in which:
+        o = objs[name]
+        tids = {tr.tid for tr in world.transports if tr._addr[0] == hosts[name]}
+        reqs = [(d[2:] if o["tcp"] else d) for (t, tid, d, failed) in world.tx if tid in tids]
+        res[name] = {"results": o["results"], "requests": reqs, "hang": repr(out.hang) if out.hang else None,
+                     "exc": repr(out.exc) if out.exc else None}
+    return res
+
+
+def run_case_e2e(acc: Acc, case):
+    acc.case()
+    acc.nontrivial("e2e", repr(case["objects"]), repr(case["seq"]))
+    try:
+        solo = {"A": execute_e2e(case, "A")["A"], "B": execute_e2e(case, "B")["B"]}
+        both = execute_e2e(case, "AB")
+    finally:
+        harness.import_goodwe(fresh=True)
+    fails = []
+    for name in ("A", "B"):
+        s, b = solo[name], both[name]
+        if b["hang"] or b["exc"] or s["hang"] or s["exc"]:
+            fails.append(("C20|e2e|run-failed", "%r / %r" % (s, b), case))
+            continue
+        if s["requests"] != b["requests"]:
+            fails.append(("C20|e2e|request-divergence|%s" % VARIANTS[case["objects"][name]["variant"]]["family"],
+                          "object %s transmits %d requests alone and %d when the other object is active at the same time "
+                          "(first difference at request %d)" % (name, len(s["requests"]), len(b["requests"]),
+                                                                next((i for i, (x, y) in enumerate(zip(s["requests"], b["requests"])) if x != y),
+                                                                     min(len(s["requests"]), len(b["requests"])))), case))
+        elif s["results"] != b["results"]:
+            fails.append(("C20|e2e|result-divergence|%s" % VARIANTS[case["objects"][name]["variant"]]["family"],
+                          "object %s returns different results when the other object is active at the same time" % name, case))
+    return fails
+
+
+def e2e_job(job):
+    part, parts = job
+    acc = Acc()
+    names = list(VARIANTS)
+    i = 0
+    for va in names:
+        for vb in names:
+            for (la, lb, start_b) in ((2, 3, 1), (1, 6, 0), (5, 1, 2)):
+                i += 1
+                if i % parts != part:
+                    continue
+                plain = lambda v: ([["runtime"], ["read_setting", "grid_export_limit"], ["write_setting", "grid_export_limit", 30 + i % 50],
+                                    ["read_setting", "grid_export_limit"], ["runtime"]])
+                case = {"e2e": True,
+                        "objects": {"A": {"variant": va, "salt": i % 97, "latency": la, "start": 0, "groups": []},
+                                    "B": {"variant": vb, "salt": (i * 3) % 89 + 1, "latency": lb, "start": start_b, "groups": []}},
+                        "seq": {"A": plain(va), "B": plain(vb)}, "merge": []}
+                for key, msg, c in run_case_e2e(acc, case):
+                    acc.fail(key, msg, c)
+                if len(acc.samples) < 1:
+                    acc.sample(case)
+    return acc
+
+
 def _apply(acc, case):
+    if case.get("e2e"):
+        for key, msg, c in run_case_e2e(acc, case):
+            acc.fail(key, msg, c)
+        return
     for key, msg, c in run_case(acc, case):
         acc.fail(key, msg, c)
 
@@ -330,6 +434,7 @@ def hyp_job(job):
 
 def run(ctx):
     ctx.shard(grid_job, [(p, 16, ctx.quick) for p in range(16)], "all ordered variant pairs x group-1 contents x 5 sequence styles, alternating merges (3 fresh library imports per case)")
+    ctx.shard(e2e_job, [(p, 16) for p in range(16)], "end-to-end: both objects driven by concurrent tasks on one virtual loop (overlapping requests, per-peer latency)")
     n = ctx.pick(160, 8000)
     ctx.shard(hyp_job, [(ctx.seed * 1000 + i, n // 16) for i in range(16)], "hypothesis sequences and merges")
 
